@@ -48,7 +48,7 @@ def execute(case):
     import anyio
     from anyio import Event, create_task_group, get_cancelled_exc_class
     from asphalt.core import (AsyncResourceError, Component, ComponentStartError, Context, ResourceNotFound, add_resource,
-                              add_resource_factory, add_teardown_callback, get_resource, start_component)
+                              add_resource_factory, add_teardown_callback, get_resource, start_component, start_service_task)
 
     prog, sched = case["prog"], list(case["hist"])
     burst = case.get("burst", False)
@@ -65,7 +65,7 @@ def execute(case):
         kids = {c: [d for d in range(1, n + 1) if par[d - 1] == c] for c in range(1, n + 1)}
         at_gate = {}
         waiting = set()
-        state = {"exc": None, "outer": None, "values": []}
+        state = {"exc": None, "outer": None, "values": [], "factories": []}
         fin = {}
         classes = {}
         fc, fphase = prog["fail"]["c"], prog["fail"]["phase"]
@@ -132,7 +132,17 @@ def execute(case):
                         state["exc"] = x
                         log(ev="fail", c=c, phase="preparing" if ph == "prep" else "starting", exc="boom")
                         raise x
-                    if op["k"] == "add":
+                    if op["k"] == "svc":
+                        sid = [c, f"svc{ip}"]
+
+                        async def service(sid=sid):
+                            try:
+                                await anyio.sleep_forever()
+                            finally:
+                                log(ev="td", id=sid)          # stopping the task is this registration's teardown
+                        await start_service_task(service, f"svc-{c}-{ip}")
+                        log(ev="reg", id=sid)
+                    elif op["k"] == "add":
                         types = [TY[t] for t in op["ts"]]
                         if op["x"] in ("res", "res2"):
                             if op["x"] == "res2":
@@ -164,7 +174,9 @@ def execute(case):
                                 add_resource_factory(factory, types=types)
                             else:
                                 add_resource_factory(factory, op["n"], types=types)
-                            log(ev="publish", c=c, ts=op["ts"], n=actual_name(op, label, types[0]), kind="fac", v=label)
+                            an = actual_name(op, label, types[0])
+                            state["factories"].append((types[0], an, label))
+                            log(ev="publish", c=c, ts=op["ts"], n=an, kind="fac", v=label)
                     elif op["k"] == "get":
                         T = TY[op["ts"][0]]
                         log(ev="get.begin", c=c, t=op["ts"][0], n=op["n"], mode=op["x"])
@@ -244,7 +256,15 @@ def execute(case):
                         got = []
                         for T in (A, B):
                             got += [getattr(v, "label", ["?"]) for v in outer.get_resources(T).values()]
-                        log(ev="visible", want=[v.label for v in state["values"]], got=got)
+                        # factories registered by components must be usable from the surrounding context as well
+                        for (T, nm, label) in state["factories"]:
+                            try:
+                                v = await outer.get_resource(T, nm, optional=True)
+                            except Exception:  # noqa: BLE001
+                                v = None
+                            if v is not None:
+                                got.append(getattr(v, "label", ["?"]))
+                        log(ev="visible", want=[v.label for v in state["values"]] + [f[2] for f in state["factories"]], got=got)
                     log(ev="ctx.exit.begin")
                 log(ev="ctx.exit.end")
             except BaseException as e:  # noqa: BLE001
